@@ -58,6 +58,7 @@ type FuncContract struct {
 	Panics    bool // explicit panics are part of the documented behaviour (not an obligation)
 	Havocs    []string
 	Unbounded bool
+	CallsBack bool
 	AllocBound *Clause
 }
 
@@ -259,23 +260,33 @@ func (cs *ContractSet) loadFile(path string) error {
 				cs.Lemmas = append(cs.Lemmas, c)
 			}
 		case "func":
-			fs := strings.Fields(rest)
-			name := fs[0]
-			// optional formal list: func name(a, b, c)
+			// trailing flag words
+			var flags []string
+			hdr := rest
+			for {
+				k := strings.LastIndex(hdr, " ")
+				if k < 0 {
+					break
+				}
+				w := hdr[k+1:]
+				if w == "assumed" || w == "pure" || w == "fresh" || w == "panics" {
+					flags = append(flags, w)
+					hdr = strings.TrimSpace(hdr[:k])
+					continue
+				}
+				break
+			}
+			name := hdr
+			// optional formal list: name(a, b, c) — the "(" must follow an identifier character
 			var formals []string
-			if j := strings.Index(name, "("); j > 0 && strings.HasSuffix(name, ")") && !strings.HasPrefix(name, "(") {
-				formals = strings.Split(name[j+1:len(name)-1], ",")
-				name = name[:j]
-			} else if j := strings.LastIndex(name, "("); j > 0 && strings.HasSuffix(name, ")") && strings.HasPrefix(name, "(") && j > strings.Index(name, ")") {
-				formals = strings.Split(name[j+1:len(name)-1], ",")
-				name = name[:j]
+			if strings.HasSuffix(hdr, ")") {
+				if j := strings.LastIndex(hdr, "("); j > 0 && (isIdentChar(hdr[j-1])) {
+					formals = strings.Split(hdr[j+1:len(hdr)-1], ",")
+					name = hdr[:j]
+				}
 			}
-			for k := range formals {
-				formals[k] = strings.TrimSpace(formals[k])
-			}
-			if len(formals) == 1 && formals[0] == "" {
-				formals = nil
-			}
+			name = strings.TrimSpace(name)
+			fs := append([]string{name}, flags...)
 			full := qualify(pkg, name)
 			cur = &FuncContract{Name: full, Pkg: pkg, Loops: map[int]*LoopSpec{}, NoSafety: map[string]bool{}, Safety: map[string]bool{}, Where: w, File: path, Props: fileProps, Params: formals}
 			for _, f := range fs[1:] {
@@ -308,6 +319,8 @@ func (cs *ContractSet) loadFile(path string) error {
 				cur.Fresh = true
 			case "panics":
 				cur.Panics = true
+			case "callsback":
+				cur.CallsBack = true
 			case "requires", "ensures", "defines":
 				c, err := mk(kw)
 				if err != nil {
@@ -423,6 +436,10 @@ func qualify(pkg, name string) string {
 		return name[1:]
 	}
 	return pkg + "." + name
+}
+
+func isIdentChar(c byte) bool {
+	return c == '_' || c == '$' || (c >= '0' && c <= '9') || (c >= 'a' && c <= 'z') || (c >= 'A' && c <= 'Z')
 }
 
 func parseSpecFn(s string) (*SpecFn, error) {
